@@ -354,7 +354,7 @@ fn raw_random(rng: &mut Rng) -> Vec<u8> {
 /// decoder has seen so far unless an input kind says otherwise.
 pub fn gen_session(rng: &mut Rng, mix: &Mix) -> Session {
     let ndec = 1 + rng.weighted(&[6, 3, 1][..mix.max_decoders.min(3)]);
-    let mut s = Session { note: String::new(), pics: Vec::new(), events: Vec::new(), max_chunk: 0 };
+    let mut s = Session { note: String::new(), pics: Vec::new(), events: Vec::new(), max_chunk: 0, screen: 0 };
     let mut gens: Vec<DecGen> = Vec::new();
     for d in 0..ndec {
         let opts = rng.below(4) as u8;
